@@ -42,6 +42,7 @@ import (
 	"fmt"
 	"go/constant"
 	"go/token"
+	"go/types"
 	"math"
 	"math/big"
 	"os"
@@ -82,6 +83,7 @@ func checkC04(ctx *Ctx, r *Report, tier string) {
 	checkWindingTraversalTests(ctx, r)
 	checkSegmentRecord(ctx, r)
 	checkClosingEdge(ctx, r)
+	checkOwnershipWithinSnap(ctx, r)
 }
 
 var windingConvention = true // lower endpoint closed (set by W1 on the real function)
@@ -1154,4 +1156,87 @@ func checkClosingEdge(ctx *Ctx, r *Report) {
 	}
 	r.check("W14", "VertexToLine|closing-edge-unless-last-repeats-first", app.Pos, bad == "", "the closing vertex is appended iff closed and !first.Equals(last, tolerance);"+bad)
 	r.floor("W14", 1)
+}
+
+// checkOwnershipWithinSnap (W15): lineIntersect snaps the end points of the pieces it keeps onto
+// the box edges with a tolerance, so a segment running along an edge within that tolerance is
+// "on" the edge for the box on either side. The half-open ownership rule (W3: the top and right
+// edges belong to the neighbour) has to use the same notion, or a vertical segment an ulp inside
+// the right edge is kept by this box (it contains it) and by the right neighbour (which snaps it
+// onto its own left edge) and counted twice by the winding number. The split lines are rounded
+// centres of a scaled square: ordinary rectilinear outlines come that close.
+// Decided on the conditions of the function's early nil returns (those that do not depend on
+// the candidate points), evaluated numerically for an axis-parallel segment at offsets of
+// 0, ±tolerance/2 (must be given up) and ±2·tolerance, −0.3 (must not be given up here: inside the
+// box nobody else owns it) from the top / right edge of the unit box.
+func checkOwnershipWithinSnap(ctx *Ctx, r *Report) {
+	fn := ctx.ssaFunc("sdf", "(*Box2).lineIntersect")
+	if fn == nil {
+		r.undecided("W15", "Box2.lineIntersect", 0, "not found")
+		return
+	}
+	tol := 0.0
+	if p := ctx.Pkgs["sdf"]; p != nil && p.Types != nil {
+		if c, ok := p.Types.Scope().Lookup("tolerance").(*types.Const); ok {
+			tol, _ = constant.Float64Val(constant.ToFloat(c.Val()))
+		}
+	}
+	// does the function snap at all? (no snapping, no tolerance to agree with)
+	snaps := false
+	allInstrs(fn, func(_ *ssa.BasicBlock, ins ssa.Instruction) {
+		if c, ok := ins.(*ssa.Call); ok {
+			if g := c.Call.StaticCallee(); g != nil && strings.HasPrefix(g.Name(), "Snap") {
+				snaps = true
+			}
+		}
+	})
+	if !snaps || tol <= 0 {
+		r.check("W15", "Box2.lineIntersect|edge-ownership-uses-the-snapping-tolerance", fn.Pos(), true, "the clipper does not snap candidate points (rule not applicable to this shape)")
+		r.floor("W15", 1)
+		return
+	}
+	ev := newEval(ctx)
+	ev.evalRoot(fn)
+	box, l := paramName(fn, 0), paramName(fn, 1)
+	bad := ""
+	n := 0
+	for _, ax := range []string{"X", "Y"} {
+		other := "Y"
+		if ax == "Y" {
+			other = "X"
+		}
+		for _, c := range []struct {
+			d      float64
+			giveUp bool
+		}{{0, true}, {-tol / 2, true}, {tol / 2, true}, {-tol * 1e-3, true}, {-2 * tol, false}, {-0.3, false}} {
+			for _, dir := range []float64{1, -1} {
+				env := map[string]float64{box + ".Min.X": 0, box + ".Min.Y": 0, box + ".Max.X": 1, box + ".Max.Y": 1,
+					l + "[0]." + ax: 1 + c.d, l + "[1]." + ax: 1 + c.d,
+					l + "[0]." + other: 0.5 - 0.25*dir, l + "[1]." + other: 0.5 + 0.25*dir}
+				gaveUp, decided := false, 0
+				for _, alt := range ev.RootRets {
+					if _, isNil := alt.Val.(Nil); !isNil || alt.Cond == nil {
+						continue
+					}
+					v, ok := evalFloat(alt.Cond, env)
+					if !ok {
+						continue // depends on the candidate points: not an edge test
+					}
+					decided++
+					if v != 0 {
+						gaveUp = true
+					}
+				}
+				n++
+				if decided == 0 && c.giveUp {
+					bad += " no early return decides an axis-parallel segment;"
+				}
+				if gaveUp != c.giveUp && len(bad) < 300 {
+					bad += fmt.Sprintf(" segment parallel to the %s axis at %s = Max.%s%+g: given up = %v, expected %v;", other, ax, ax, c.d, gaveUp, c.giveUp)
+				}
+			}
+		}
+	}
+	r.check("W15", "Box2.lineIntersect|edge-ownership-uses-the-snapping-tolerance", fn.Pos(), bad == "", fmt.Sprintf("%d placements of an axis-parallel segment around the top/right edge (tolerance %g);%s", n, tol, bad))
+	r.floor("W15", 1)
 }
